@@ -848,6 +848,18 @@ def rule_snode_ld(mod, rep, pats=("sp_?trsv", "?gstrs", "?PivotGrowth"), floor=4
             rep.scope([f.name])
             P = _Poly(f)
             n = 0; bad = None
+            # scalars kept in address-taken locals (nsupr goes to BLAS by reference): a local all of whose stores are row extents is a row extent
+            rowext = set()
+            by_cell = {}
+            for st in f.insts():
+                if st.op == "store":
+                    aps = f.addr_paths(st)
+                    if aps and all(len(p_) == 1 and p_[0][0] == "L" for p_ in aps):
+                        by_cell.setdefault(aps, []).append(st)
+            for aps, sts in by_cell.items():
+                polys = [P.of(st.ops[0]) for st in sts]
+                if polys and all(pl and all(k and all("rowind_col" in t for t in k) for k in pl) for pl in polys):
+                    rowext.add("ld:" + "|".join(sorted(fmt_path(p_) for p_ in aps)))
             for x in f.insts():
                 if x.op != "getelementptr":
                     continue
@@ -860,7 +872,7 @@ def rule_snode_ld(mod, rep, pats=("sp_?trsv", "?gstrs", "?PivotGrowth"), floor=4
                 n += 1
                 for poly in _cursor_starts(f, P, idxs[0]):
                     for mono, co in poly.items():
-                        if len(mono) >= 2 and not any("rowind_col" in t for t in mono):
+                        if len(mono) >= 2 and not any("rowind_col" in t or t in rowext for t in mono):
                             bad = (x, mono)
             if n == 0:
                 if pat == "?PivotGrowth" or pat == "?gstrs":
